@@ -130,7 +130,7 @@ func (g *SrcGen) number() string {
 	return rapid.SampledFrom([]string{"0", "1", "42", "1.5", "0.25", "1e3", "2E+2", "3e-1", "1000000", "12.5e1"}).Draw(g.T, "num")
 }
 
-var litChunks = []string{"a", "hello ", " ", "x=1", "é", "✓", "#", "//", "/*", "*/", "{", "}", "[", "'", ",", "\\n", "\\t", "\\\"", "\\\\", "$${", "%%{", "$", "%", "$$", "~", "\t", "EOT", "<<", "\\u00e9", "\\U0001f600"}
+var litChunks = []string{"a", "hello ", " ", "x=1", "é", "✓", "#", "//", "/*", "*/", "{", "}", "[", "'", ",", "\\n", "\\t", "\\\"", "\\\\", "$${", "%%{", "$", "%", "$$", "~", "\t", "EOT", "<<", "\\u00e9"}
 
 // quotedLit: literal text inside a quoted template.
 func (g *SrcGen) quotedLit() string {
@@ -532,6 +532,9 @@ func (g *SrcGen) attr(level, depth int, oneLine bool) string {
 func (g *SrcGen) Body(level, depth int) string {
 	var b strings.Builder
 	n := g.r("nitems", 5)
+	if level == 0 && n == 0 && g.r("empty-file", 8) != 0 {
+		n = 1
+	}
 	for i := 0; i < n; i++ {
 		// leading material
 		switch g.r("lead", 8) {
@@ -584,7 +587,7 @@ func (g *SrcGen) block(level, depth int) string {
 
 // File writes a whole file.
 func (g *SrcGen) File() string {
-	s := g.Body(0, rapid.IntRange(0, 3).Draw(g.T, "exprdepth"))
+	s := g.Body(0, rapid.SampledFrom([]int{0, 1, 2, 2, 3, 3}).Draw(g.T, "exprdepth"))
 	if g.r("no-final-newline", 5) == 0 {
 		t := strings.TrimRight(s, "\r\n")
 		if t != s {
